@@ -216,6 +216,111 @@ def oracle_only_variant(rng, sc: Scenario) -> Scenario:
     return out if out.oracle_only() else dataclasses.replace(out, probe_wait=True)
 
 
+def insub_variant(rng, sc: Scenario) -> Scenario:
+    """Round 5 (oracle-only): completion callbacks delivered INSIDE `backend.submit`, re-entrantly, while the dispatching thread
+    (the caller in `_start`, or a completion callback in `dispatch_next`) is inside `Parallel._dispatch` and holds the lock: the
+    batch being submitted itself (future already done when the callback is attached), or batches submitted earlier.  Every
+    statement order inside `_dispatch` (counters, tracker registration, `_jobs.append`, `submit`) becomes observable; half of
+    the scenarios also evaluate the caller's unlocked wait predicate at every bytecode of the callbacks (`probe_wait`)."""
+    import dataclasses
+    total = sum(c.n for c in sc.calls)
+    nsub = max(1, min(total, 40))
+    style = rng.random()
+    k0 = 0
+    if style < 0.3:
+        p, hows = 0.5, [-1]  # some batches are done before their callback is attached, the others stay in flight
+    elif style < 0.6:
+        p, hows, k0 = 1.0, [-1], rng.randrange(nsub)  # every batch from the k0-th submit on (the earlier ones stay in flight)
+    elif style < 0.75:
+        p, hows = 0.15, [-1, -1, -1, 0, 1, -2]
+    elif style < 0.85:
+        p, hows = 1.0, [-1]  # an immediate backend: every batch completes inside its own submit
+    else:
+        p, hows = 0.5, [-1, -1, 0, 1, -2]
+    ins = []
+    for k in range(k0, nsub):
+        if rng.random() < p:
+            ins.append((k, rng.choice(hows)))
+    if not ins:
+        ins = [(rng.randrange(nsub), -1)]
+    kw = dict(insub=tuple(ins))
+    if total <= 40 and rng.random() < 0.75:
+        kw["probe_wait"] = True
+    if sc.pd_mode != 1 and sc.pd == 0:
+        kw["pd"] = 1  # pre_dispatch 0 is finding F11, not the subject here
+        if sc.pd_mode == 2:
+            kw["pd_mode"] = 0
+    return dataclasses.replace(sc, **kw)
+
+
+def real_ab_variant(rng, sc: Scenario) -> Scenario:
+    """Round 5 (oracle-only): the batch sizes are not scripted but computed by the REAL `AutoBatchingMixin` attached to the real
+    `Parallel` object (it can read `n_tasks`, `n_dispatched_tasks`, the number of workers ...), over SEVERAL calls of one object —
+    managed (`with Parallel(...)`: the statistics survive from call to call) or not (reset by `terminate()`), sized and unsized
+    inputs, batch durations on either side of the 0.2 s / 2 s thresholds (fake clock in microseconds)."""
+    import dataclasses
+    nj = sc.nj if sc.nj > 1 else 2
+    ncalls = rng.choice([2, 3, 3, 4, 5])
+    calls = []
+    for i in range(ncalls):
+        n = rng.choice([0, 1, 2, 3, 5, 8, 13, 24, 30, 40, 60, rng.randint(1, 60)])
+        if i == 0 and rng.random() < 0.6:
+            n = rng.choice([24, 40, 60, 80])  # a long first call: the batch size grows
+        fail = (rng.randrange(n),) if n and rng.random() < 0.08 else ()
+        cons = () if sc.ra == 0 else tuple(rng.choice([1, 1, 5]) for _ in range(rng.choice([0, 0, 2, 4])))
+        calls.append(Call(n, fail, -1, cons))
+    pd_mode, pd = sc.pd_mode, sc.pd
+    if pd_mode != 1 and pd == 0:
+        pd_mode, pd = 0, rng.choice([1, 2, nj, 2 * nj])
+    return dataclasses.replace(
+        sc, nj=nj, bs_auto=True, bs=(1,), timeout=-1, pd_mode=pd_mode, pd=pd, calls=tuple(calls),
+        managed=rng.random() < 0.65, sized=rng.random() < 0.6, abort_drops=True, verbose=rng.choice([0, 0, 0, 11]),
+        real_ab=True, ab_tick_us=rng.choice([0, 0, 1000, 50_000, 150_000, 700_000, 2_500_000]),
+        ab_eps_us=rng.choice([1, 100, 100, 5_000, 30_000]),
+        instr=(), midpull_close=(), probe_wait=False, reenter="", warn_error=False, enter_fault=0, enter_cls=0)
+
+
+def ab_line(sc, ops):
+    """The recorded operations on the real mixin as a request to the Lean model of the mixin (JoblibModel/AutoBatch.lean) ->
+    (line, expected reply, fragile).  `fragile`: a comparison or an `int()` of the float computation sits within 1e-6 of a
+    boundary of the exact (rational) one - such sequences are not compared."""
+    from fractions import Fraction
+    toks, outs = ["AB"], []
+    eff, dur, fragile = 1, Fraction(0), False
+    for i, op in enumerate(ops):
+        if op[0] == "c":
+            v = op[1]
+            if dur > 0:
+                for thr in (Fraction(1, 5), Fraction(2)):
+                    if abs(dur - thr) < Fraction(1, 10**6):
+                        fragile = True
+                q = Fraction(eff, 5) / dur
+                # `int(old * 0.2 / duration)` decides only in the "too slow" branch (in the "too fast" one it is >= old, and
+                # `min(2 * old, 2 * ideal)` is `2 * old` whatever the rounding)
+                if dur > 2 and abs(q - round(q)) < Fraction(1, 10**6):
+                    fragile = True
+            toks.append("c")
+            outs.append(v)
+            if v != eff:
+                dur = Fraction(0)
+            eff = v
+        elif op[0] == "d":
+            toks += ["d", str(op[1]), str(op[2]), "1000000"]
+            if op[1] == eff:
+                d = Fraction(op[2], 10**6)
+                dur = d if dur == 0 else Fraction(4, 5) * dur + Fraction(1, 5) * d
+                if op[2] == 0:
+                    fragile = True
+        elif op[0] == "r":
+            toks.append("r")
+            eff, dur = 1, Fraction(0)
+        elif op[0] == "n":
+            nxt = next((o for o in ops[i + 1:] if o[0] in ("c", "n")), None)
+            nt = nxt[2] if nxt is not None and nxt[0] == "c" and nxt[2] is not None else -1
+            toks += ["n", str(nt), "0", str(sc.nj)]
+    return " ".join(toks), " ".join(map(str, outs)), fragile
+
+
 # ------------------------------------------------------------------ oracles on the implementation's log
 
 
@@ -522,6 +627,41 @@ def oracle(sc: Scenario, run: ctl.Run, props):
     return [b for b in bad if b[0] in props]
 
 
+def real_ab_checks(sc, run, res, pending):
+    """`real_ab` scenarios: (oracle) the backend contract M1 assumes - every value the real `compute_batch_size()` returned to
+    the real Parallel object is >= 1, in every call; (correspondence) the values equal what the Lean model of the mixin computes
+    from the recorded (batch size, duration) history alone."""
+    bad = []
+    comp = [o for o in run.ab_ops if o[0] == "c"]
+    res.count("real-autobatch-computes", len(comp))
+    if any(o[1] != 1 for o in comp):
+        res.nontrivial.add(("real-ab", sc.line(), sc.ab_tick_us, sc.ab_eps_us, sc.sized))
+    below = [o for o in comp if not (isinstance(o[1], int) and o[1] >= 1)]
+    if below:
+        o = below[0]
+        bad.append(("C01", "backend-contract:auto-batch-size-below-one",
+                    dict(returned=o[1], n_tasks=o[2], n_dispatched_tasks=o[3], n_workers=o[4], managed=sc.managed)))
+    line, want, fragile = ab_line(sc, run.ab_ops)
+    if fragile:
+        res.count("real-autobatch-skipped-float-boundary")
+        return bad
+    pending.append((line, want, sc, [list(o) for o in run.ab_ops][:60]))
+    return bad
+
+
+def real_ab_compare(res, pending, driver_prop):
+    if not pending:
+        return
+    try:
+        reps = core.Driver(driver_prop).run([p[0] for p in pending])
+    except core.InfraError:
+        raise
+    for (line, want, sc, ops), rep in zip(pending, reps):
+        res.traces_validated += 1
+        if rep != want:
+            res.diverge("auto-batch-sizes-on-parallel", sc.to_json(), dict(impl=want, ops=ops), dict(model=rep))
+
+
 def promptness_oracle(sc, run):
     """C16: with return_as='generator', a `next()` issued when the next result's batch has already completed
     yields it without waiting for any further completion."""
@@ -604,6 +744,14 @@ def explore(ctx, props, n, salt, focus=None, scenarios=None, driver_prop=None):
             if rng.random() < 0.3:
                 sc = oracle_only_variant(rng, sc)
             scs.append(sc)
+        import os
+        if "C01" in props and not os.environ.get("VERIF_M1_NO_ROUND5"):
+            # round 5: two more oracle-only scenario kinds, drawn from their own stream (the scenarios above are unchanged)
+            rng5 = ctx.rng(f"{salt}/round5")
+            for _ in range(max(1, n // 10)):
+                scs.append(insub_variant(rng5, _gen_scenario(rng5, focus, big=ctx.thorough)))
+            for _ in range(max(1, n // 12)):
+                scs.append(real_ab_variant(rng5, _gen_scenario(rng5, focus, big=ctx.thorough)))
     import dataclasses
     guard, note = probe_start_guard()
     res.count("startGuard=%d" % guard)
@@ -621,6 +769,7 @@ def explore(ctx, props, n, salt, focus=None, scenarios=None, driver_prop=None):
     comparable = [sc for sc in scs if not sc.oracle_only()]
     reps = iter(core.Driver(driver_prop or ctx.prop).run([sc.line() for sc in comparable]))
     replies = [None if sc.oracle_only() else next(reps) for sc in scs]
+    ab_pending = []
     for sc, (r, err), rep in zip(scs, runs, replies):
         res.evaluations += 1
         case = sc.to_json()
@@ -658,8 +807,19 @@ def explore(ctx, props, n, salt, focus=None, scenarios=None, driver_prop=None):
         stale = stale_window_call(sc, r.log) is not None
         prompt = [(p, sg, d)
                   for p, sg, d in promptness_oracle(sc, r) + reenter_oracle(sc, r) if p in props]
+        if sc.insub or sc.real_ab:
+            res.count("in-submit-completion-scenarios" if sc.insub else "real-autobatch-scenarios")
+            if r.insub_fired:
+                res.count("in-submit-completions-delivered", len(r.insub_fired))
+                res.nontrivial.add(("insub",) + tuple(sc.insub) + (sc.line(),))
+            extra = real_ab_checks(sc, r, res, ab_pending) if sc.real_ab else []
+            # these two kinds are judged for C01 only (return values, exactly once, no foreign exception, wait predicate)
+            for p, sig, detail in [x for x in oracle(sc, r, props) if x[0] == "C01"] + extra:
+                res.fail(sig, case, dict(detail=detail, in_submit=r.insub_fired[:20], log=line[:1500]))
+            continue
         for p, sig, detail in oracle(sc, r, props) + prompt:
             res.fail(sig, case, dict(detail=detail, log=line[:1500]))
+    real_ab_compare(res, ab_pending, driver_prop or ctx.prop)
     res.assumptions = [
         "completion callbacks run to completion at hook points (caller between two of: configure, compute_batch_size, sleep, consumer pause, "
         "abort_everything, between calls / after the last call)",
@@ -725,6 +885,12 @@ def run_prop(ctx, prop, focuses):
         out.rule = "replay of a forced real-thread schedule at lock-boundary granularity (M1L)"
         m1_lock.replay_case(ctx, out, ctx.replay["case"])
         return out
+    if ctx.replay and ctx.replay.get("case", {}).get("kind") == "native-managed-reuse":
+        from . import m1_threads
+        out = Result()
+        out.rule = "replay of a native probe case: successive calls on one Parallel object, process backend (repeated 3 times)"
+        m1_threads.managed_reuse_probe(ctx, out, {prop}, 3, cases=[ctx.replay["case"]] * 3)
+        return out
     if ctx.replay and ctx.replay.get("case", {}).get("kind") == "native-exc-kind":
         from . import m1_threads
         out = Result()
@@ -772,6 +938,7 @@ def run_prop(ctx, prop, focuses):
         if prop == "C04":
             bad_pd_table_probe(out)
         instr_sweep(ctx, out, {prop}, 10**9)
+        insub_sweep(ctx, out, {prop})
         if prop in ("C01", "C09"):
             autobatch_probe(ctx, out, {prop}, 20000, prop)
         if prop in ("C01", "C04", "C09", "C16"):
@@ -787,12 +954,14 @@ def run_prop(ctx, prop, focuses):
             m1_threads.stuck_sibling_process_probe(ctx, out, {prop}, 8)
             m1_threads.shutdown_fault_probe(ctx, out, {prop}, 16)
             m1_threads.startup_fault_probe(ctx, out, {prop}, 100)
+            m1_threads.managed_reuse_probe(ctx, out, {prop}, 10)
         return out
     rs = [explore(ctx, {prop}, 2400 // len(focuses), f"quick-{f}", f) for f in focuses]
     out = merge(rs)
     if prop == "C04":
         bad_pd_table_probe(out)
     instr_sweep(ctx, out, {prop}, 150)
+    insub_sweep(ctx, out, {prop})
     if prop in ("C01", "C09"):
         autobatch_probe(ctx, out, {prop}, 400, prop)
     if prop in ("C01", "C04", "C09", "C16"):
@@ -808,6 +977,7 @@ def run_prop(ctx, prop, focuses):
         m1_threads.stuck_sibling_process_probe(ctx, out, {prop}, 8)
         m1_threads.shutdown_fault_probe(ctx, out, {prop}, 16)
         m1_threads.startup_fault_probe(ctx, out, {prop}, 100)
+        m1_threads.managed_reuse_probe(ctx, out, {prop}, 4)
     return out
 
 
@@ -857,6 +1027,33 @@ def instr_sweep(ctx, res, props, per_base):
                     res.fail(sig, sc.to_json(), dict(detail=detail, fired=r.instr_fired, log=" | ".join(r.log)[:1500]))
 
 
+def insub_sweep(ctx, res, props):
+    """Round 5, systematic part of the in-submit completions (oracle only, C01): for small calls, EVERY subset of the submits
+    completes inline (the batch's own callback runs inside `backend.submit`), in the three return modes, with the caller's wait
+    predicate evaluated at every bytecode of the callbacks delivered while the caller sleeps."""
+    import os
+    if "C01" not in props or os.environ.get("VERIF_M1_NO_ROUND5"):
+        return
+    for ra in (0, 1, 2):
+        for (n, pd, bs) in ((3, 2, 1), (4, 2, 1), (5, 3, 1), (6, 1, 2)):
+            nb = n if bs == 1 else (n + 1) // 2 + 1
+            for mask in range(1, 1 << min(nb, 5)):
+                ins = tuple((k, -1) for k in range(nb) if mask >> k & 1)
+                sc = Scenario(nj=2, bs_auto=False, bs=(bs,), pd=pd, ra=ra, calls=(Call(n), Call(2)), insub=ins, probe_wait=True)
+                try:
+                    r = ctl.run_scenario(sc)
+                except Exception as e:  # noqa: BLE001
+                    res.fail("harness-run-crashed:" + type(e).__name__, sc.to_json(), repr(e))
+                    continue
+                res.evaluations += 1
+                res.count("in-submit-sweep-scenarios")
+                if r.insub_fired:
+                    res.nontrivial.add(("insub-sweep", ra, n, pd, bs, mask))
+                for p, sig, detail in oracle(sc, r, props):
+                    if p == "C01":
+                        res.fail(sig, sc.to_json(), dict(detail=detail, in_submit=r.insub_fired, log=" | ".join(r.log)[:1500]))
+
+
 # ------------------------------------------------------------------ the source of the batch sizes: AutoBatchingMixin
 
 
@@ -876,11 +1073,36 @@ def autobatch_probe(ctx, res, props, n, driver_prop):
     lines, expected, cases = [], [], []
     for _ in range(n):
         b = B()
-        b.parallel = SimpleNamespace(verbose=0, _print=lambda *_: None)
+        # the state of the Parallel object the mixin could read (round 5): a sized or unsized input, the dispatch counters (biased
+        # to "nothing left to dispatch": the compute made by the dispatch that discovers the end of the input), the workers
+        par = SimpleNamespace(verbose=0, _print=lambda *_: None, n_tasks=None, n_dispatched_tasks=0, n_dispatched_batches=0,
+                              n_completed_tasks=0, n_jobs=2, _cached_effective_n_jobs=2, _n_jobs=2, return_as="list",
+                              pre_dispatch="2*n_jobs", batch_size="auto", _managed_backend=True)
+        b.parallel = par
         ops, outs, toks = [], [], ["AB"]
+
+        def new_par_state():
+            nw = rng.choice([1, 2, 2, 3, 4, 8])
+            nt = None if rng.random() < 0.35 else rng.choice([0, 1, 2, 3, 5, 30, 400, rng.randint(0, 1000)])
+            nd = rng.randint(0, 40) if nt is None else rng.choice([nt, nt, nt, max(nt - 1, 0), rng.randint(0, nt)])
+            par.n_tasks, par.n_dispatched_tasks, par.n_completed_tasks = nt, nd, rng.randint(0, nd)
+            par.n_dispatched_batches = nd
+            par.n_jobs = par._n_jobs = par._cached_effective_n_jobs = nw
+            ops.append(f"n {nt} {nd} {nw}")
+            toks.extend(["n", str(-1 if nt is None else nt), str(nd), str(nw)])
         eff_exact, dur_exact = 1, Fraction(0)
         fragile = False
         for _ in range(rng.randint(1, 30)):
+            u = rng.random()
+            if u < 0.12:
+                new_par_state()
+                continue
+            if u < 0.16:
+                b.reset_batch_stats()  # terminate() of the process backends
+                ops.append("r")
+                toks.append("r")
+                eff_exact, dur_exact = 1, Fraction(0)
+                continue
             if rng.random() < 0.45:
                 # margins: would the float computation sit on a boundary of the exact one?
                 d = dur_exact
@@ -889,15 +1111,19 @@ def autobatch_probe(ctx, res, props, n, driver_prop):
                         if abs(d - thr) < Fraction(1, 10**6):
                             fragile = True
                     q = Fraction(eff_exact, 5) / d
-                    if abs(q - round(q)) < Fraction(1, 10**6):
+                    # `int(old * 0.2 / duration)` decides in the "too slow" branch only (see ab_line)
+                    if d > 2 and abs(q - round(q)) < Fraction(1, 10**6):
                         fragile = True
+                if rng.random() < 0.5:
+                    new_par_state()
                 old = b._effective_batch_size
                 v = b.compute_batch_size()
                 ops.append("c")
                 outs.append(v)
                 toks.append("c")
                 if v < 1 and ("C01" in props or "C09" in props):
-                    res.fail("backend-contract:auto-batch-size-below-one", dict(ops=list(ops)), dict(returned=v))
+                    res.fail("backend-contract:auto-batch-size-below-one", dict(ops=list(ops)),
+                             dict(returned=v, n_tasks=par.n_tasks, n_dispatched_tasks=par.n_dispatched_tasks, n_workers=par.n_jobs))
                 if v > 2 * max(old, 1) and "C09" in props:
                     res.fail("backend-contract:auto-batch-size-more-than-doubles", dict(ops=list(ops)), dict(old=old, returned=v))
                 if v != eff_exact:
